@@ -52,6 +52,19 @@ func (l Lin) scale(k int64) Lin {
 	return r
 }
 
+// Const reports whether the term is a constant, and its value.
+func (l Lin) Const() (int64, bool) {
+	if !l.ok {
+		return 0, false
+	}
+	for _, k := range l.Coef {
+		if k != 0 {
+			return 0, false
+		}
+	}
+	return l.C, true
+}
+
 func (l Lin) String() string {
 	var parts []string
 	var as []string
@@ -91,6 +104,11 @@ type Ctx struct {
 }
 
 // NewCtx creates a conversion context.
+// ParamLen, when set by the rules, answers "is this slice parameter given a
+// buffer of one constant length at every call site?" (interprocedural length
+// of internal helpers such as ctrCrypt(siv, …) with siv always 16 bytes).
+var ParamLen func(prm *ssa.Parameter) (int64, bool)
+
 func NewCtx(fn *ssa.Function) *Ctx {
 	return &Ctx{Fn: fn, names: map[ssa.Value]string{}, nonneg: map[string]bool{}, Assumed: map[string]bool{}}
 }
@@ -180,6 +198,13 @@ func (c *Ctx) LenOf(v ssa.Value) Lin {
 	if pt, ok := v.Type().Underlying().(*types.Pointer); ok {
 		if a, ok := pt.Elem().Underlying().(*types.Array); ok {
 			return konst(a.Len())
+		}
+	}
+	// a slice parameter of an unexported function that receives a buffer of one
+	// constant length at every call site of the module
+	if prm, ok := v.(*ssa.Parameter); ok && ParamLen != nil {
+		if k, known := ParamLen(prm); known {
+			return konst(k)
 		}
 	}
 	a := "len(" + c.name(v) + ")"
